@@ -19,7 +19,7 @@ for sid in ids:
             print(sid, "PATCH DOES NOT APPLY")
             continue
         t0 = time.time()
-        p = subprocess.run(["./check", prop, "--tier", "quick"], cwd=HERE, stdout=subprocess.PIPE, stderr=subprocess.STDOUT, text=True)
+        p = subprocess.run(["./check", prop, "--tier", "quick", "--child-evidence", "/tmp/pyvc_seeded_evidence.json"], cwd=HERE, stdout=subprocess.PIPE, stderr=subprocess.STDOUT, text=True)
         lines = p.stdout.strip().splitlines()
         viol = [l for l in lines if l.startswith("VIOLATION")]
         failed = [l for l in lines if l.startswith("failed obligations")]
